@@ -5,3 +5,5 @@ package xixi_kv
 func verifFsEvent(kind string, a string, b string) {}
 
 func verifSched(label string) {}
+
+func verifMergeFile(id uint32) {}
